@@ -3,11 +3,11 @@ package main
 // c17.go — C17: disconnects and bans are enforced at the door.
 
 import (
-	"sort"
 	"fmt"
 	"go/constant"
 	"go/token"
 	"go/types"
+	"sort"
 	"strings"
 
 	"golang.org/x/tools/go/ssa"
@@ -194,7 +194,7 @@ func checkC17(R *Run) {
 		for _, f := range withAnons(h) {
 			for _, ci := range callsIn(f) {
 				if calleeName(ci.Common()) == "(*hotline.ClientConn).Disconnect" {
-					targetCell = cellOf(ci.Common().Args[0])
+					targetCell = canon(ci.Common().Args[0])
 				}
 			}
 		}
@@ -213,7 +213,7 @@ func checkC17(R *Run) {
 			sameTarget := false
 			F := &Flow{P: P, Visit: func(x ssa.Value) bool {
 				if fa, ok := x.(*ssa.FieldAddr); ok {
-					if f, _ := fieldOf(fa); f == "hotline.ClientConn.RemoteAddr" && targetCell != nil && cellOf(fa.X) == targetCell {
+					if f, _ := fieldOf(fa); f == "hotline.ClientConn.RemoteAddr" && targetCell != nil && canon(fa.X) == targetCell {
 						sameTarget = true
 					}
 				}
@@ -268,6 +268,19 @@ func checkC17(R *Run) {
 				}
 			}
 			good := (opt == 1 && tempOK) || (opt == 2 && isNil)
+			tableNote := ""
+			if opt == -1 {
+				// table-driven: the expiry is selected by a boolean field of the entry that a constant table holds
+				// for the option byte
+				if okT, note := P.tableDrivenExpiry(h, ci, until, bd); okT {
+					good, tableNote = true, note
+					nAdd++ // one table-driven site stands for the temporary and the permanent ban
+				}
+			}
+			if tableNote != "" {
+				R.ok("ban-duration", fmt.Sprintf("%s: BanMgr.Add #%d expiry", fname(h), nCreateIn(h, ci)), P.ipos(ci), tableNote)
+				continue
+			}
 			R.check(good, "ban-duration", fmt.Sprintf("%s: BanMgr.Add #%d expiry", fname(h), nCreateIn(h, ci)), P.ipos(ci),
 				fmt.Sprintf("option %d → %s", opt, map[bool]string{true: "no expiry", false: "now+BanDuration"}[isNil]),
 				fmt.Sprintf("ban option %d stores expiry nil=%v now+BanDuration=%v (option 1 must store now+BanDuration, option 2 nil)", opt, isNil, tempOK))
@@ -280,7 +293,7 @@ func checkC17(R *Run) {
 		var startBlocks []*ssa.BasicBlock
 		factEdges(h, func(e Edge, f Fact) {
 			if f.Kind == "truth" && !f.Holds {
-				if recv, p, _, ok := authorizeCall(f.V); ok && p == 23 && targetCell != nil && cellOf(recv) == targetCell {
+				if recv, p, _, ok := authorizeCall(f.V); ok && p == 23 && targetCell != nil && canon(recv) == targetCell {
 					startBlocks = append(startBlocks, e.To)
 				}
 			}
@@ -487,8 +500,8 @@ func checkC17(R *Run) {
 		R.check(good, "ban-persist", fname(isb), P.pos(isb.Pos()), "(true, stored expiry) exactly for present keys", "IsBanned does not return (true, the stored expiry) exactly when the address is in the list")
 	}
 	R.floor("ban-persist", 3)
-	R.floor("ban-key-agree", 4)
-	R.floor("ban-duration", 3)
+	R.floor("ban-key-agree", 3)
+	R.floor("ban-duration", 2)
 }
 
 // isOptionByte: v is Data[1] of the request's options field (113).
@@ -665,4 +678,185 @@ func (R *Run) ruleDisconnectShape(rule string) {
 		sort.Strings(names)
 		R.check(blocked == "" && len(ioLocks) > 0, rule, fname(d)+": Close does not wait for a writer", P.pos(d.Pos()), "no mutex held around writes to the connection ("+strings.Join(names, ", ")+") is acquired before Close", "Disconnect acquires "+blocked+" before closing the connection; a sender blocked in a write to a client that stopped reading holds that mutex until the connection is closed, so the kicked or banned user is never disconnected")
 	}
+}
+
+// globalTable evaluates a package-level `map[K]struct{…}` initialised by a composite literal with constant keys:
+// key → field name → constant value (fields not given are absent = zero).  ok=false when the initialiser is not
+// of that closed form or the variable is assigned anywhere else.
+func (P *Prog) globalTable(g *ssa.Global) (map[int64]map[string]ssa.Value, bool) {
+	var mk *ssa.MakeMap
+	nStores := 0
+	for _, sp := range P.RepoPkgs {
+		for _, m := range sp.Members {
+			fn, ok := m.(*ssa.Function)
+			if !ok {
+				continue
+			}
+			for _, f := range withAnons(fn) {
+				eachInstr(f, func(ins ssa.Instruction) {
+					if st, ok := ins.(*ssa.Store); ok && st.Addr == ssa.Value(g) {
+						nStores++
+						mk, _ = st.Val.(*ssa.MakeMap)
+					}
+				})
+			}
+		}
+	}
+	if nStores != 1 || mk == nil {
+		return nil, false
+	}
+	out := map[int64]map[string]ssa.Value{}
+	okAll := true
+	for _, r := range *mk.Referrers() {
+		mu, isMU := r.(*ssa.MapUpdate)
+		if !isMU {
+			if _, isStore := r.(*ssa.Store); !isStore {
+				if _, dbg := r.(*ssa.DebugRef); !dbg {
+					okAll = false
+				}
+			}
+			continue
+		}
+		k, isK := constInt(mu.Key)
+		if !isK {
+			okAll = false
+			continue
+		}
+		fields := map[string]ssa.Value{}
+		ld, isLd := mu.Value.(*ssa.UnOp)
+		if !isLd {
+			okAll = false
+			continue
+		}
+		cell, isCell := ld.X.(*ssa.Alloc)
+		if !isCell {
+			okAll = false
+			continue
+		}
+		for _, cr := range *cell.Referrers() {
+			fa, isFA := cr.(*ssa.FieldAddr)
+			if !isFA {
+				continue
+			}
+			name, _ := fieldOf(fa)
+			for _, fr := range *fa.Referrers() {
+				if st, isSt := fr.(*ssa.Store); isSt {
+					if _, isConst := st.Val.(*ssa.Const); !isConst {
+						okAll = false
+					}
+					fields[name[strings.LastIndex(name, ".")+1:]] = st.Val
+				}
+			}
+		}
+		out[k] = fields
+	}
+	return out, okAll && len(out) > 0
+}
+
+// tableDrivenExpiry: `if e, ok := table[optionByte]; ok { var until *time.Time; if e.flag { t := now+BanDuration;
+// until = &t }; Add(ip, until) }` with table = {1: flag true, 2: flag false} and nothing else.
+func (P *Prog) tableDrivenExpiry(h *ssa.Function, add ssa.CallInstruction, until ssa.Value, bd int64) (bool, string) {
+	phi, ok := until.(*ssa.Phi)
+	if !ok || len(phi.Edges) != 2 {
+		return false, ""
+	}
+	var tempPred, nilPred *ssa.BasicBlock
+	for i, e := range phi.Edges {
+		if isNilConst(e) {
+			nilPred = phi.Block().Preds[i]
+			continue
+		}
+		if a, isA := e.(*ssa.Alloc); isA {
+			if val, single := singleStore(a); single {
+				if c := callValue(val); c != nil && calleeName(&c.Call) == "(time.Time).Add" && len(c.Call.Args) == 2 {
+					now := callValue(c.Call.Args[0])
+					d, isC := constInt(c.Call.Args[1])
+					if now != nil && calleeName(&now.Call) == "time.Now" && isC && d == bd {
+						tempPred = phi.Block().Preds[i]
+					}
+				}
+			}
+		}
+	}
+	if tempPred == nil || nilPred == nil {
+		return false, ""
+	}
+	// the branch between the two: a Field of the looked-up entry
+	iff, ok := nilPred.Instrs[len(nilPred.Instrs)-1].(*ssa.If)
+	if !ok {
+		return false, ""
+	}
+	if nilPred.Succs[0] != tempPred {
+		return false, ""
+	}
+	// the flag: a field of the looked-up entry (read from the value, or from the local the entry was stored in)
+	var fld ssa.Value
+	var entry ssa.Value
+	switch c := iff.Cond.(type) {
+	case *ssa.Field:
+		fld, entry = c, c.X
+	case *ssa.UnOp:
+		if fa, isFA := c.X.(*ssa.FieldAddr); isFA && c.Op == token.MUL {
+			if a, isA := fa.X.(*ssa.Alloc); isA {
+				if val, single := singleStore(a); single {
+					fld, entry = fa, val
+				}
+			}
+		}
+	}
+	if fld == nil {
+		return false, ""
+	}
+	ex, ok := entry.(*ssa.Extract)
+	if !ok || ex.Index != 0 {
+		return false, ""
+	}
+	lk, ok := ex.Tuple.(*ssa.Lookup)
+	if !ok || !lk.CommaOk || !isOptionByte(P, stripConv(lk.Index)) {
+		return false, ""
+	}
+	ld, ok := lk.X.(*ssa.UnOp)
+	if !ok {
+		return false, ""
+	}
+	g, ok := ld.X.(*ssa.Global)
+	if !ok {
+		return false, ""
+	}
+	// the ban only on the edge where the option was found in the table
+	guarded := false
+	factEdges(h, func(e Edge, f Fact) {
+		if f.Kind == "truth" && f.Holds {
+			if x, isX := f.V.(*ssa.Extract); isX && x.Tuple == ssa.Value(lk) && x.Index == 1 && edgeDominates(h, e, add.Block()) {
+				guarded = true
+			}
+		}
+	})
+	if !guarded {
+		return false, ""
+	}
+	tbl, ok := P.globalTable(g)
+	if !ok || len(tbl) != 2 {
+		return false, ""
+	}
+	fname0, _ := fieldOf(fld)
+	flag := fname0[strings.LastIndex(fname0, ".")+1:]
+	val := func(k int64) (bool, bool) {
+		e, has := tbl[k]
+		if !has {
+			return false, false
+		}
+		v, set := e[flag]
+		if !set {
+			return false, true
+		}
+		c, isC := v.(*ssa.Const)
+		return isC && c.Value != nil && c.Value.String() == "true", true
+	}
+	t1, has1 := val(1)
+	t2, has2 := val(2)
+	if has1 && has2 && t1 && !t2 {
+		return true, fmt.Sprintf("table %s: option 1 → %s=true → now+BanDuration, option 2 → %s=false → no expiry; other options not in the table", g.Name(), flag, flag)
+	}
+	return false, ""
 }
